@@ -131,7 +131,7 @@ def execute_shipped(sc, ctx):
     seen = {}
     for h in sc['hashseeds']:
         out.fault('hashseed')
-        r = ctx.ask(h, {'op': 'serialise', 'target': {'kind': 'mm', 'text': text, 'target': sc['target']}, 'formats': ['binary'], 'optimize': True, 'history': [], 'timeout': 110})
+        r = ctx.ask(h, {'op': 'serialise', 'target': {'kind': 'mm', 'text': text, 'target': sc['target']}, 'formats': ['binary'], 'optimize': True, 'history': [], 'timeout': 600 if os.environ.get('VERIF_TIER') == 'thorough' else 110})
         out.ops += 1
         if 'error' in r:
             out.violate('a shipped benchmark translates', 'C16|shipped|translate-raises|' + r['error'], '%s hashseed=%d: %s' % (sc['shipped_mm'], h, r.get('trace', r.get('message', ''))[-600:]))
